@@ -1,5 +1,6 @@
 PROP = dict(
         coq="Properties/C09.v",
+        tie_coq=["Properties/TieC15.v"],
         workloads=[
             dict(name="liquidation-sweeps", go_test="TestC09", runner="C09",
                  env=dict(quick=dict(VERIF_CASES=240), thorough=dict(VERIF_CASES=4500))),
